@@ -112,6 +112,23 @@ var noBrace = &gen.Profile{Name: "nobrace", ForbidBytes: "{"}
 func drawHeadingDoc(t *rapid.T, label string) []byte {
 	n := rapid.IntRange(1, 10).Draw(t, label+"n")
 	var b []byte
+	if rapid.IntRange(0, 7).Draw(t, label+"many") == 0 {
+		// many headings: whatever keeps the ids may change its representation at some size (8, 16, 32, 64 entries)
+		n = rapid.IntRange(12, 80).Draw(t, label+"nmany")
+		distinct := rapid.IntRange(1, n).Draw(t, label+"distinct")
+		for i := 0; i < n; i++ {
+			k := rapid.IntRange(0, distinct).Draw(t, label+"title")
+			switch {
+			case k == distinct:
+				b = append(b, rapid.SampledFrom(hdToks).Draw(t, label+"h")...)
+			case i%2 == 0 || rapid.Bool().Draw(t, label+"seq"):
+				b = append(b, ("# s" + strconv.Itoa(min(k, i)) + "\n")...) // mostly new titles first, repeats later
+			default:
+				b = append(b, ("s" + strconv.Itoa(k) + "\n---\n")...)
+			}
+		}
+		return b
+	}
 	for i := 0; i < n; i++ {
 		if rapid.IntRange(0, 5).Draw(t, label+"soup") == 0 {
 			b = append(b, gen.Soup(t, noBrace, 6, label+"s")...)
